@@ -16,8 +16,9 @@ if ! git apply $V/seeded/$ID/patch.diff; then echo "patch does not apply"; $V/to
 PYTHONPATH=$W/src /venv/bin/python $V/seeded/$ID/demo.py >/dev/null 2>&1; mut_rc=$?
 if [ -n "${SKIP_BASELINE:-}" ]; then base_out="not re-run here (agent reported: $SKIP_BASELINE)"; else base_out=$($V/tools/baseline_check.py $W | head -1); fi
 cd $V
-check_out=$(tools/wt run $W ./check $P --tier $TIER 2>&1 | grep -E "VIOLATION|KNOWN-FINDING|^\[$P\]|HARNESS" | head -8)
-detected=no; echo "$check_out" | grep -q "^VIOLATION" && detected=yes
+full_out=$(tools/wt run $W ./check $P --tier $TIER 2>&1)
+check_out=$(echo "$full_out" | grep -E "VIOLATION|^\[$P\]|HARNESS" | head -8)
+detected=no; echo "$full_out" | grep -q "^VIOLATION" && detected=yes
 $V/tools/wt rm $W >/dev/null 2>&1
 # regenerate facts for the real repo again
 /venv/bin/python -m tools.extract_facts >/dev/null 2>&1
